@@ -74,6 +74,7 @@ REQUIRED_THEOREMS = [
     "registry_view_faithful",
     "dispatched_class_serves_request",
     "requests_are_consistent",
+    "per_spec_generation",
     "same_numbers_any_output_any_entry",
 ]
 TRUSTED = [
@@ -108,6 +109,12 @@ ASSUMPTIONS = [
     "does; `entry_points_agree_exactly` gives identical requests when both forwarding flags, probed on the live code, are set); "
     "ModelSpec values in a call are valid (constructed by the library); the materializer-method entry point is compared when the "
     "leaves of a structured spec agree on a materializer",
+    "the per-spec branch of ModelSpecs.get_model_matrix (parts that cannot share a materializer): the set it creates when the "
+    "caller gave none is an identity of the call record (`Call.freshDrop`, reported as 0 by the recorder: the first set seen that "
+    "is neither None nor the caller's; any further one would get another number), and whether the set grows during the first "
+    "pass — hence whether the parts are generated twice — is a parameter (`Call.dropGrows`) that the harness derives from the "
+    "case (null cell in a column every part uses, and a part that drops nulls); `per_spec_generation` and "
+    "`entry_points_agree_exactly` hold for every value of both",
     "declared_inputs_dispatched quantifies over the generated probe table (one object per kind of data the streams use); "
     "for_data_* hold for every registry, data record and set order",
     "the class `for_data` picks is looked up again by its REGISTER_NAME in the plumbing model (`Call.dataMat`): exact for classes "
@@ -133,7 +140,8 @@ RULE = (
     "spec trained by a random materializer/output, reused on rows labelled slice/shuffled/reversed/dups/str/disjoint/shifted through "
     "9 materializer x output combinations + 5 entry points at one combination. "
     "entry: random call records (formula / structured formula / ModelSpec / ModelSpecs, 20% with leaves that disagree on output / "
-    "na_action / ensure_full_rank; materializer given by name, as class, "
+    "na_action / ensure_full_rank, 60% of the ModelSpecs with parts that cannot share a materializer (different constructor params "
+    "or names: the per-spec branch), 60% of those on data with a null cell (second pass); materializer given by name, as class, "
     "instance, unregistered class or junk; overrides incl. invalid ones; context mapping or none; a drop_rows set or none; data = "
     "pandas / pyarrow / dict / record array / narwhals stable / narwhals main / a list). registry: one sweep of every probe kind x 6 "
     "outputs on the live registry, then 0-4 random extra classes (own/inherited/empty/duplicate names, 0-3 declared input types, 0-3 "
@@ -243,6 +251,20 @@ class Recorder:
     def canonical(self):
         w = self.world
         out = []
+        others = []  # drop sets that are neither None nor the caller's, in the order they were first seen
+
+        def drop_id(d):
+            """None -> None; the caller's set -> 1; a set the library created itself -> 0 (a second such set -2, ...)"""
+            if d is None:
+                return None
+            if d is w["drop"]:
+                return 1
+            for i, o in enumerate(others):
+                if o is d:
+                    return 0 if i == 0 else -1 - i
+            others.append(d)
+            return 0 if len(others) == 1 else -len(others)
+
         for e in self.records:
             m = e["self"]
             if e["prepared"] is None:
@@ -258,7 +280,7 @@ class Recorder:
                     params=w["params_id"](m.params),
                     specs=[dict(k=str(i), ms=ms_json(ms, w)) for i, ms in enumerate(leaves)],
                     simplify=bool(e["simplify"]),
-                    dropRows=None if e["drop"] is None else (1 if e["drop"] is w["drop"] else -1),
+                    dropRows=drop_id(e["drop"]),
                 )
             )
         return out
@@ -353,7 +375,27 @@ def gen_entry_case(rng):
         ov = [[k, fix(v)] if k == "materializer" else [k, v] for k, v in ov]
         for leaf in ([spec["ms"]] if spec["t"] == "mspec" else spec.get("parts", []) if spec["t"] == "mspecs" else []):
             leaf["materializer"] = fix(leaf["materializer"])
-    return dict(kind="entry", spec=spec, data=data, context=rng.random() < 0.5, drop=rng.random() < 0.5, overrides=ov)
+    nulls = False
+    if spec["t"] == "mspecs" and rng.random() < 0.6:
+        # the PER-SPEC branch of ModelSpecs.get_model_matrix: two parts recorded with different constructor params (or
+        # different materializers) cannot share a materializer, but share one drop set; with a null cell in a column
+        # every part uses and a drop policy somewhere, that set grows during the first pass and the parts are generated twice
+        a, b = spec["parts"]
+        name = {"pandas": rng.choice(["pandas", "narwhals"]), "unsupported": None}.get(data, a["materializer"] or b["materializer"]
+                                                                                         or {"dict": "pandas", "recarray": "pandas"}.get(data, "narwhals"))
+        if name is not None:
+            a["materializer"], b["materializer"] = name, name
+            a["params"], b["params"] = rng.choice([(1, 0), (0, 1), (1, 1)])
+            if a["params"] == b["params"] and data == "pandas":
+                b["materializer"] = "narwhals" if name == "pandas" else "pandas"
+        nulls = rng.random() < 0.6
+    if nulls:
+        # the materialisation itself is not modelled: keep it from raising on the null
+        unraise = lambda v: "drop" if v == "raise" else v
+        for leaf in spec["parts"]:
+            leaf["na"] = unraise(leaf["na"])
+        ov = [[k, unraise(v)] if k == "na_action" else [k, v] for k, v in ov]
+    return dict(kind="entry", spec=spec, data=data, context=rng.random() < 0.5, drop=rng.random() < 0.5, overrides=ov, nulls=nulls)
 
 
 DATA_KINDS = ["pandas", "arrow", "dict", "recarray", "nwstable", "nwmain"]
@@ -411,6 +453,8 @@ def _world(c):
     import pyarrow
 
     df = pandas.DataFrame({"y": [1.0, 2.0, 4.0], "w": [0.0, 1.0, 1.0], "x": [0.5, 1.0, -2.0], "z": [3.0, 1.0, 2.0], "a": pandas.Categorical(["u", "v", "u"])})
+    if c.get("nulls"):
+        df.loc[1, "x"] = numpy.nan  # every formula of FORMULAS that a ModelSpec leaf can carry uses `x`
     kind = c["data"]
     if kind == "pandas":
         data = df
@@ -502,6 +546,17 @@ def _effective(spec_obj, kw):
     return _joint([(ms.materializer, ms.materializer_params) for ms in eff._flatten()])
 
 
+def _result_shapes(res):
+    """[rows, columns] of the matrix, or of every part of a structured result (in part order)"""
+    shape = lambda m: [int(x) for x in m.shape]
+    try:
+        if hasattr(res, "_flatten"):
+            return [shape(m) for m in res._flatten()]
+        return [shape(res)]
+    except Exception as e:
+        return "unreadable: " + type(e).__name__
+
+
 class NotApplicable(Exception):
     pass
 
@@ -537,7 +592,7 @@ def run_entry(c, entry, w, spec_obj):
             return {"n/a": True}, None
         except Exception as e:
             return {"error": type(e).__name__, "msg": str(e)[:160], "partial": rec.canonical()}, None
-        return {"requests": rec.canonical()}, res
+        return {"requests": rec.canonical(), "shapes": _result_shapes(res)}, res
 
 
 def applicable(c, entry):
@@ -589,8 +644,19 @@ def entry_request(c, o):
     return dict(
         op="entry",
         call=dict(spec=spec, data=0, probe=o["probe"], context=1 if c["context"] else None,
-                  dropRows=1 if c["drop"] else None, overrides=[dict(k=k, v=v) for k, v in c["overrides"]]),
+                  dropRows=1 if c["drop"] else None, overrides=[dict(k=k, v=v) for k, v in c["overrides"]],
+                  dropGrows=_drop_grows(c)),
     )
+
+
+def _drop_grows(c):
+    """PARAMETER of the plumbing model: does generating the parts of a ModelSpecs one by one add rows to the (initially
+    empty) drop set? Yes iff the data has the null cell (in `x`, which every leaf formula uses) and some part drops nulls
+    (its own `na_action`, or the one the overrides give to all parts)"""
+    if not c.get("nulls") or c["spec"]["t"] != "mspecs":
+        return False
+    forced = [v for k, v in c["overrides"] if k == "na_action"]
+    return any((forced[-1] if forced else leaf["na"]) == "drop" for leaf in c["spec"]["parts"])
 
 
 def _norm_requests(rs):
@@ -640,6 +706,9 @@ def oracle_entry(c, o):
             a, b = _erase_drop(ok[names[i]]["requests"]), _erase_drop(ok[names[j]]["requests"])
             if a != b:
                 return f"entry points {names[i]} and {names[j]} hand different requests to the materializer: {a} vs {b}"
+            sa, sb = ok[names[i]].get("shapes"), ok[names[j]].get("shapes")
+            if sa != sb:
+                return f"entry points {names[i]} and {names[j]} return matrices of different shapes: {sa} vs {sb}"
     for e, twin in (o.get("by_name") or {}).items():
         got = o["entries"].get(e)
         if got is None:
@@ -2167,7 +2236,7 @@ def classify(c, o, why):
 
 
 LEVEL_TEXT = (
-    "Proof: Lean theorems (Props/C05.lean, 28). (0) The property on the model as ONE statement: for every environment, call "
+    "Proof: Lean theorems (Props/C05.lean, 29). (0) The property on the model as ONE statement: for every environment, call "
     "record and formula content, any two output types asked through any two entry points (top-level function, formula method, "
     "model-spec / model-specs method with or without overrides, materializer method) give, request by request and part by part, "
     "the same column names in the same order and the same numbers whenever both succeed (`same_numbers_any_output_any_entry`), "
@@ -2184,7 +2253,9 @@ LEVEL_TEXT = (
     "the live registry and dispatches every input type a shipped materializer declares (decided on the generated table on every "
     "run); every request is served by a registered class that offers each leaf's output and is either the nominated one or "
     "for_data's choice, which accepts the data, and its leaves agree on output / null policy / rank setting (RuntimeError "
-    "otherwise, in the model as in the code). (4) The ModelMatrix wrapper: copy / deepcopy / pickle in any sequence keep the "
+    "otherwise, in the model as in the code); ModelSpecs whose parts cannot share a materializer are generated part by part with "
+    "ONE shared drop set (the caller's or a fresh one) in one pass, or two identical passes exactly when the set grew "
+    "(`per_spec_generation`). (4) The ModelMatrix wrapper: copy / deepcopy / pickle in any sequence keep the "
     "attached spec's names and the numbers (given faithful copiers), ModelMatrices/ModelSpecs accept exactly their leaf type and "
     "`.model_spec` keeps the keys. (5) The kind tables of the materializers (generated) agree for every dtype. The models are "
     "tied to the code by differential correspondence on every run (streams entry, registry, wrapper, sparseops, outputs); the "
